@@ -101,7 +101,7 @@ pub mod group_types { pub use super::{Group, GroupState, SelfUpdateState, GroupE
 pub mod message_types { pub use super::{Message, MessageState, ProcessedMessage, ProcessedMessageState}; }
 pub mod mdk_storage_traits {
     pub use super::{GroupId, Secret, MdkStorageError, MdkStorageProvider};
-    pub mod groups { pub mod types { pub use super::super::super::{Group, GroupState, SelfUpdateState, GroupExporterSecret}; } }
+    pub mod groups { pub mod types { pub use super::super::super::{Group, GroupState, SelfUpdateState, GroupExporterSecret}; } pub mod error { pub use super::super::super::GroupError; } }
     pub mod messages { pub mod types { pub use super::super::super::{Message, MessageState, ProcessedMessage, ProcessedMessageState}; } }
 }
 
@@ -137,6 +137,8 @@ pub struct World {
     pub messages: Map<(GroupId, EventId), Message>,
     pub processed: Map<EventId, ProcessedMessage>,
     pub exporter_secrets: Map<(GroupId, u64), GroupExporterSecret>,
+    pub welcomes: Map<EventId, Welcome>,
+    pub processed_welcomes: Map<EventId, ProcessedWelcome>,
     // ---- persisted MLS state per group (OpenMLS provider storage)
     pub mls: Map<GroupId, MlsView>,
     // ---- snapshot manager + storage snapshots
@@ -163,6 +165,7 @@ pub struct World {
     pub notified: Option<RollbackNote>,
     pub exported_for: Seq<(GroupId, u64)>,  // exporter_secret exports performed (group, epoch)
     pub secret_lookups: Seq<(GroupId, u64)>, // every get_group_exporter_secret(group, epoch) query, in order
+    pub joined: Seq<GroupId>,                // groups joined through StagedWelcome::into_group
 }
 pub struct RollbackNote { pub group: GroupId, pub target_epoch: u64, pub new_head: EventId, pub invalidated: Seq<EventId>, pub refetch: Seq<EventId> }
 
@@ -170,6 +173,7 @@ pub struct RollbackNote { pub group: GroupId, pub target_epoch: u64, pub new_hea
 pub open spec fn same_storage(a: World, b: World) -> bool {
     a.groups == b.groups && a.relays == b.relays && a.messages == b.messages && a.processed == b.processed
     && a.exporter_secrets == b.exporter_secrets && a.mls == b.mls && a.snapshots == b.snapshots
+    && a.welcomes == b.welcomes && a.processed_welcomes == b.processed_welcomes
 }
 // everything but the dedup record of one event
 pub open spec fn same_storage_except_processed(a: World, b: World, id: EventId) -> bool {
@@ -226,6 +230,18 @@ pub trait MdkStorageProvider {
         ensures *final(w) == *old(w),
                 r is Ok ==> r->Ok_0 == (if old(w).processed.contains_key(*event_id) { Some(old(w).processed[*event_id]) } else { None::<ProcessedMessage> }),
                 r is Ok && r->Ok_0 is Some ==> r->Ok_0->Some_0.wrapper_event_id == *event_id;
+    fn save_welcome(&self, welcome: Welcome, Tracked(w): Tracked<&mut World>) -> (r: Result<(), WelcomeError>)
+        ensures r is Ok ==> *final(w) == (World { welcomes: old(w).welcomes.insert(welcome.id, welcome), ..*old(w) }),
+                r is Err ==> *final(w) == *old(w);
+    fn find_welcome_by_event_id(&self, event_id: &EventId, Tracked(w): Tracked<&mut World>) -> (r: Result<Option<Welcome>, WelcomeError>)
+        ensures *final(w) == *old(w),
+                r is Ok ==> r->Ok_0 == (if old(w).welcomes.contains_key(*event_id) { Some(old(w).welcomes[*event_id]) } else { None::<Welcome> });
+    fn save_processed_welcome(&self, pw: ProcessedWelcome, Tracked(w): Tracked<&mut World>) -> (r: Result<(), WelcomeError>)
+        ensures r is Ok ==> *final(w) == (World { processed_welcomes: old(w).processed_welcomes.insert(pw.wrapper_event_id, pw), ..*old(w) }),
+                r is Err ==> *final(w) == *old(w);
+    fn find_processed_welcome_by_event_id(&self, event_id: &EventId, Tracked(w): Tracked<&mut World>) -> (r: Result<Option<ProcessedWelcome>, WelcomeError>)
+        ensures *final(w) == *old(w),
+                r is Ok ==> r->Ok_0 == (if old(w).processed_welcomes.contains_key(*event_id) { Some(old(w).processed_welcomes[*event_id]) } else { None::<ProcessedWelcome> });
     // rollback bookkeeping: effects on the tables are left abstract (any change to `messages` /
     // `processed`), the call itself is recorded so that order conditions can be stated
     fn invalidate_messages_after_epoch(&self, group_id: &GroupId, epoch: u64, Tracked(w): Tracked<&mut World>) -> (r: Result<Vec<EventId>, MessageError>)
@@ -439,6 +455,7 @@ pub enum Proposal {
     SelfRemove,
     Custom(Box<OtherProposal>),
 }
+//@include welcome_model.rs
 //@include mls_proposals_common.rs
 //@include mls_commit_ops.rs
 // (proposal iterators: see mls_proposals_vec.rs / mls_proposals_iter.rs, chosen per unit)
@@ -661,3 +678,5 @@ impl core::fmt::Display for EventId { #[verifier::external_body] fn fmt(&self, _
 impl vstd::std_specs::fmt::DisplaySpecImpl for EventId { open spec fn fmt_req(&self, f: &core::fmt::Formatter<'_>) -> bool { true } }
 impl core::fmt::Display for tls_codec::Error { #[verifier::external_body] fn fmt(&self, _f: &mut core::fmt::Formatter<'_>) -> core::fmt::Result { unimplemented!() } }
 impl vstd::std_specs::fmt::DisplaySpecImpl for tls_codec::Error { open spec fn fmt_req(&self, f: &core::fmt::Formatter<'_>) -> bool { true } }
+impl core::fmt::Debug for Error { #[verifier::external_body] fn fmt(&self, _f: &mut core::fmt::Formatter<'_>) -> core::fmt::Result { unimplemented!() } }
+impl vstd::std_specs::fmt::DebugSpecImpl for Error { open spec fn fmt_req(&self, f: &core::fmt::Formatter<'_>) -> bool { true } }
